@@ -5,4 +5,5 @@ INVARIANT PrefixIffShrunk
 INVARIANT SupportedSucceed
 INVARIANT OwnOutputAccepted
 INVARIANT DispatchInverse
+INVARIANT HistoryIndependent
 CHECK_DEADLOCK FALSE
